@@ -401,6 +401,52 @@ func (p *Prog) minSubexp(recv ssa.Value) (min int, pats []string, ok bool) {
 	return min, pats, true
 }
 
+// lenAtLeastEdges: the edges of fn on which len(x) >= n is established by a
+// comparison of len(x) with a constant.
+func lenAtLeastEdges(fn *ssa.Function, x ssa.Value, n int64) []Edge {
+	isLen := func(v ssa.Value) bool {
+		cc, _, ok := callResult(v)
+		return ok && calleeName(cc) == "builtin.len" && len(cc.Call.Args) == 1 && (strip(cc.Call.Args[0]) == strip(x) || sameLoad(cc.Call.Args[0], x))
+	}
+	var out []Edge
+	// the atom holds and implies the bound
+	out = append(out, condEdges(fn, true, func(a Atom) bool {
+		switch a.Op {
+		case token.EQL:
+			if k, ok := constInt(a.Y); ok && isLen(a.X) {
+				return k >= n
+			}
+			if k, ok := constInt(a.X); ok && isLen(a.Y) {
+				return k >= n
+			}
+		case token.LSS: // k < len
+			if k, ok := constInt(a.X); ok && isLen(a.Y) {
+				return k+1 >= n
+			}
+		case token.LEQ: // k <= len
+			if k, ok := constInt(a.X); ok && isLen(a.Y) {
+				return k >= n
+			}
+		}
+		return false
+	})...)
+	// the atom does not hold and its negation implies the bound
+	out = append(out, condEdges(fn, false, func(a Atom) bool {
+		switch a.Op {
+		case token.LSS: // !(len < k)
+			if k, ok := constInt(a.Y); ok && isLen(a.X) {
+				return k >= n
+			}
+		case token.LEQ: // !(len <= k)
+			if k, ok := constInt(a.Y); ok && isLen(a.X) {
+				return k+1 >= n
+			}
+		}
+		return false
+	})...)
+	return out
+}
+
 // checkConstIndexes adds one obligation per constant index into a submatch or
 // Split result in the given functions.
 func (c *Ctx) checkConstIndexes(rule string, fns []*ssa.Function) {
@@ -414,8 +460,15 @@ func (c *Ctx) checkConstIndexes(rule string, fns []*ssa.Function) {
 				if s.Index == 0 {
 					c.ok(rule, key, pos, "Split returns at least one element (library table)")
 				} else {
-					// must be guarded by a length test; look for len(x) comparison dominating
-					c.undecided(rule, key, pos, "constant index > 0 into a Split result: no length rule implemented")
+					// must lie behind a length test of the same slice on every path
+					edges := lenAtLeastEdges(fn, s.X, s.Index+1)
+					if len(edges) == 0 {
+						c.viol(rule, key, pos, fmt.Sprintf("element %d of a Split result is read and the function has no test that its length is at least %d: an input without the separator panics here", s.Index, s.Index+1))
+					} else if path := reachableWithout(fn, s.Instr, edges); path != nil {
+						c.viol(rule, key, pos, fmt.Sprintf("element %d of a Split result is reachable on a path without a test that its length is at least %d", s.Index, s.Index+1), p.pathString(path)...)
+					} else {
+						c.ok(rule, key, pos, fmt.Sprintf("behind a test that the Split result has at least %d elements on every path (%d edge(s))", s.Index+1, len(edges)))
+					}
 				}
 			case "submatch":
 				recv := s.Call.Call.Args[0]
